@@ -547,7 +547,7 @@ def gen_c03(seed, tier):
             elif fk == "view-missing":
                 g.ev("setview", node=sp["name"], peer=idp["name"], spec=None)
             elif fk == "view-enc-only":
-                g.ev("setview", node=sp["name"], peer=idp["name"], spec=dict(idp, md_key_usage="encryption"))
+                g.ev("setview", node=sp["name"], peer=idp["name"], spec=dict(idp, md_key_usage="encryption", enc_keys=[idp["key"]]))
             elif fk == "view-other-key":
                 g.ev("setview", node=sp["name"], peer=idp["name"], spec=dict(idp, key=r.pick([9, 10, 11])))
             elif fk == "refresh":
